@@ -412,6 +412,7 @@ type runConfig struct {
 	seed        int64
 	validateCap int
 	sampleCap   int
+	crossCap    int
 }
 
 func hashPrefix(h int, p []uint16, seed int64) uint64 {
@@ -537,6 +538,7 @@ type exploreResult struct {
 	unexplored          int
 	sat, unsat, unknown int64
 	solverTime          time.Duration
+	xqueries            []xquery
 	wall                time.Duration
 	workers             int
 }
@@ -561,6 +563,7 @@ func explore(w *World, harnessNames []string, cfg *runConfig, workers int, solve
 		go func() {
 			defer wg.Done()
 			ex := &Exec{w: w, sol: newSolver(solverBin, 20000), st: newStats(), q: q, viols: vs}
+			ex.sol.xcap = cfg.crossCap
 			defer ex.sol.close()
 			defer func() {
 				if r := recover(); r != nil {
@@ -577,6 +580,7 @@ func explore(w *World, harnessNames []string, cfg *runConfig, workers int, solve
 				res.unsat += ex.sol.nUnsat
 				res.unknown += ex.sol.nUnk
 				res.solverTime += ex.sol.dur
+				res.xqueries = append(res.xqueries, ex.sol.xlog...)
 				mu.Unlock()
 			}()
 			for {
